@@ -130,6 +130,7 @@ SET_MENU = [
     ("log_level", "false"), ("log_level", "0"), ("log_level", ""), ("output_format", "false"), ("output_format", "0.0"), ("output_format", ""),
     ("timeout", "inf"), ("timeout", "nan"), ("max_retries", "0"), ("max_retries", "true"),
     # the same settings spelled with a hyphen (the loader reads both spellings as one key)
+    ("greeting", "Dear "), ("greeting", "  >> hello"), ("greeting", "\tTabbed"), ("greeting", "wait\x85done"), ("greeting", "line\u2028sep"),
     ("log-level", "DEBUG"), ("log-level", "bogus"), ("output-format", "xml"), ("output-format", "json"), ("max-retries", "-1"), ("app-name", ""), ("new-key", "v2"),
 ]
 
@@ -144,6 +145,16 @@ DOMAIN = {
 
 
 # ------------------------------------------------------------------ helpers
+
+
+def _is_number(text: str) -> bool:
+    for conv in (int, float):
+        try:
+            conv(text)
+            return True
+        except ValueError:
+            pass
+    return False
 
 
 def _read(root):
@@ -316,6 +327,10 @@ def t_set(acc: Acc, root, key: str, value: str, hist):
         return r
     accepted = out[len(pref):]
     accepted = accepted[:-1] if accepted.endswith("\n") else accepted
+    # a value that is not a number / boolean spelling is a string and is stored AS GIVEN
+    plain = value.strip().lower() not in ("true", "false") and not _is_number(value)
+    if plain and accepted != value and not any(0xDC80 <= ord(ch) <= 0xDCFF for ch in value):
+        acc.fail({"inv": "accepted-string-differs-from-input", "key": key, "how": "outer-whitespace" if accepted == value.strip() else "other"}, case, repr(value), repr(accepted))
     g = obs.cli_inproc(["--config", F, "config", "get", key], root)
     acc.edge()
     got = g["stdout"][:-1] if g["stdout"].endswith("\n") else g["stdout"]
